@@ -225,7 +225,7 @@ func init() {
 		Doc: "narrowest width: the set of values reaching each narrower-writer call / each WriteHead(K) equals the table (interval analysis), narrowing conversions are to exactly the narrower type, unsigned writers widen by one zero-extending conversion, strings switch to STRING4 exactly above 255 bytes, the zero marker is used exactly for 0",
 		Run: ruleNarrowest})
 
-	register(&Rule{ID: "C02.R4", Props: []string{"C02"}, Min: 16, Needs: NeedMain,
+	register(&Rule{ID: "C02.R4", Props: []string{"C02", "C06"}, Min: 16, Needs: NeedMain,
 		Doc: "widening reads sign-extend and transport bits: in every reader case the stored value is the payload temporary converted uint_m -> int_m -> int_w (floats: math.FloatNNfrombits, float32->float64 widening), the zero marker stores constant 0, unsigned readers go through the signed reader of twice the width",
 		Run: ruleReadConversions})
 
